@@ -484,6 +484,27 @@ Definition into_content_blocking (norm idna : str -> option str)
            (debug : bool) (nets : list netf) (coss : list cosf) :=
   into_cb_gen nf_raw (convert_network norm) cf_raw (convert_cosmetic idna) debug nets coss.
 
+(* ------------------------------------------------------------------ L0: what into_content_blocking
+   must return, stated without accumulators *)
+Definition produced {X} (c : res (conv X)) : bool :=
+  match c with Ok (COk _) => true | _ => false end.
+Definition used_lines {F X} (raw : F -> option str) (cv : F -> res (conv X)) (fs : list F) : list str :=
+  flat_map (fun f => match raw f with Some l => if produced (cv f) then [l] else [] | None => [] end) fs.
+Definition emitted_net {NF} (convN : NF -> res (conv (list cb_rule))) (fs : list NF) : list cb_rule :=
+  flat_map (fun f => match convN f with Ok (COk rs) => rs | _ => [] end) fs.
+Definition emitted_cos {CF} (convC : CF -> res (conv cb_rule)) (fs : list CF) : list cb_rule :=
+  flat_map (fun f => match convC f with Ok (COk r) => [r] | _ => [] end) fs.
+Definition not_ignore (r : cb_rule) : bool := negb (is_ignore r).
+
+(* hand-written resource-type table (Apple's content-blocker documentation / uBO option names):
+   image, media, script, style-sheet, font map to themselves, subdocument -> document,
+   xmlhttprequest -> raw; object, other, ping, websocket have no content-blocking equivalent *)
+Definition l0_resource_table : list (N * option N) :=
+  [(M_FROM_IMAGE, Some 1); (M_FROM_MEDIA, Some 7); (M_FROM_OBJECT, None); (M_FROM_OTHER, None);
+   (M_FROM_PING, None); (M_FROM_SCRIPT, Some 3); (M_FROM_STYLESHEET, Some 2);
+   (M_FROM_SUBDOCUMENT, Some 0); (M_FROM_WEBSOCKET, None); (M_FROM_XMLHTTPREQUEST, Some 5);
+   (M_FROM_FONT, Some 4)].
+
 (* ------------------------------------------------------------------ L0 vocabulary *)
 (* the escape set a regex printer needs: every Safari metacharacter except the wildcard '*',
    which the converter rewrites instead of escaping *)
